@@ -1,6 +1,7 @@
 package main
 
 import (
+	"bytes"
 	"sort"
 	"encoding/json"
 	"fmt"
@@ -373,8 +374,31 @@ func schemaSegment(j *J) string {
 }
 
 // all encode paths / decode paths of a flag
+// outputs returned earlier by the serialization object are kept (not copied) together with a snapshot: a caller owns the
+// bytes it was given, so later encode calls must not change them
+type heldOutput struct{ got, snap []byte }
+
+var heldOutputs []heldOutput
+
+func holdOutput(a []byte) string {
+	for _, h := range heldOutputs {
+		if !bytes.Equal(h.got, h.snap) {
+			heldOutputs = nil
+			return "bytes returned by an earlier Marshal call were changed by a later one (the result aliases reused memory)"
+		}
+	}
+	heldOutputs = append(heldOutputs, heldOutput{a, append([]byte(nil), a...)})
+	if len(heldOutputs) > 6 {
+		heldOutputs = heldOutputs[1:]
+	}
+	return ""
+}
+
 func flagPaths(f ldmodel.FeatureFlag, text []byte) string {
 	a, _ := serialization.MarshalFeatureFlag(f)
+	if e := holdOutput(a); e != "" {
+		return e
+	}
 	b, err := json.Marshal(f)
 	if err != nil || !sameJSON(a, b) {
 		return "json.Marshal differs from the serialization object"
@@ -430,6 +454,9 @@ func usedSegment() ldmodel.Segment {
 }
 func segmentPaths(f ldmodel.Segment, text []byte) string {
 	a, _ := serialization.MarshalSegment(f)
+	if e := holdOutput(a); e != "" {
+		return e
+	}
 	b, err := json.Marshal(f)
 	if err != nil || !sameJSON(a, b) {
 		return "json.Marshal differs from the serialization object"
